@@ -411,10 +411,11 @@ def value_table():
         ("empty", ""), ("unknown-name", "al"), ("unknown-name", "alll"), ("unknown-name", "minimum"),
         ("unknown-name", "min"), ("unknown-name", "always"), ("unknown-name", "yes"), ("unknown-name", "true"),
         ("number", "1"), ("number", "0"), ("two-names", "all minimal"), ("two-names", "all,minimal")]]
-    quoting += [(cls, v, "neutral", {}) for cls, v in [("csv-mode", "none"), ("csv-mode", "nonnumeric"),
-                                                         ("csv-mode", "NonNumeric"), ("csv-mode", "notnull"),
-                                                         ("csv-mode", "strings"), ("padded", " all"),
-                                                         ("padded", "all ")]]
+    # the csv module knows more quoting modes than the two that are documented: "refuses other values"
+    quoting += [(cls, v, "refuse", {}) for cls, v in [("csv-mode", "none"), ("csv-mode", "nonnumeric"),
+                                                        ("csv-mode", "NonNumeric"), ("csv-mode", "notnull"),
+                                                        ("csv-mode", "strings"), ("csv-mode", "None")]]
+    quoting += [(cls, v, "neutral", {}) for cls, v in [("padded", " all"), ("padded", "all ")]]
     table["quoting"] = quoting
 
     header = [("documented", v, "accept", {"header": int(v)}) for v in ("0", "1", "2", "3", "10", "100", "65536")]
@@ -615,8 +616,55 @@ def default_cases():
                            "label": "%s|unset" % attribute.replace("_", " ")}
 
 
+# -- part 6: a property declared more than once ---------------------------------------------------------------------
+def twice_cases():
+    """The same property in two rows: what counts is the last one (nothing documents a refusal, and the unchanged
+    code reads it so); the completed format is the one the last row alone would give."""
+    table = value_table()
+    for name in sorted(table):
+        documented = [(value, attrs) for cls, value, expect, attrs in table[name] if expect == "accept"]
+        if name == "thousands separator":
+            documented.append(("", {"thousands_separator": ""}))
+        if len(documented) < 2:
+            continue
+        pairs = []
+        for index, (value, attrs) in enumerate(documented):
+            pairs.append(((value, attrs), documented[(index + 1) % len(documented)]))
+            pairs.append(((value, attrs), documented[(index + 3) % len(documented)]))
+        for format_name in HOME_FORMATS[name]:
+            for (first, _), (last, attrs) in pairs[:24]:
+                if first == last:
+                    continue
+                label = "%s|declared-twice" % name
+                yield {"part": "twice", "via": "direct", "format": format_name,
+                       "props": [[name, first], [name, last]], "expect": "accept", "attrs": attrs, "label": label}
+                setup = []
+                if name == "thousands separator" and last == ".":
+                    setup = [["Decimal separator", ","], ["Item delimiter", ";"]]
+                elif name == "thousands separator" and last == "" and first == ",":
+                    # the first value would contradict this decimal separator; the last one does not
+                    setup = [["Item delimiter", ";"]]
+                elif name == "decimal separator" and last == ",":
+                    setup = [["Item delimiter", ";"]]
+                elif name == "quote character" and last == ",":
+                    setup = [["Item delimiter", ";"]]
+                props = setup + [[name.capitalize(), first], [name.capitalize(), last]]
+                if name == "thousands separator" and last == "" and first == ",":
+                    props.append(["Decimal separator", ","])
+                    attrs = dict(attrs, decimal_separator=",")
+                yield {"part": "twice", "via": "cid", "format": format_name.capitalize(), "props": props,
+                       "expect": "accept", "attrs": attrs, "label": label}
+    # the digit 9 as item delimiter, then the code 9 (tab): a value is what its spelling says, whatever was there before
+    for first, last, expected in (('"9"', "9", "\t"), ("57", "9", "\t"), ('"4"', "44", ","), ("52", "52", "4")):
+        for via in ("direct", "cid"):
+            yield {"part": "twice", "via": via, "format": "delimited" if via == "direct" else "Delimited",
+                   "props": [["item delimiter" if via == "direct" else "Item delimiter", first],
+                             ["item delimiter" if via == "direct" else "Item delimiter", last]],
+                   "expect": "accept", "attrs": {"item_delimiter": expected}, "label": "item delimiter|declared-twice"}
+
+
 def all_cases():
-    for producer in (spelling_cases, applicability_cases, value_cases, consistency_cases, default_cases):
+    for producer in (spelling_cases, applicability_cases, value_cases, consistency_cases, default_cases, twice_cases):
         for case in producer():
             yield case
 
